@@ -599,7 +599,8 @@ def toyPrims : Prims where
   fill := implFill
 
 /-- toy IP primitives: `parseIp`/`showIp` use a private one-to-one text form
-    (`4` + 4 octets, `6` + 16 octets as raw bytes), ciphers are byte-wise complements. -/
+    (`4` + 4 octets, `6` + 16 octets as raw bytes); the block cipher reverses the 16 bytes, the
+    prefix-preserving cipher reverses the part it may touch (all 16 bytes, or the last 4 for IPv4). -/
 def toyShowIp : Ip → Bytes
   | .v4 o => 52 :: o
   | .v6 o => 54 :: o
@@ -612,10 +613,10 @@ def toyParseIp : Bytes → Option Ip
 def toyIpPrims : IpPrims where
   parseIp := toyParseIp
   showIp := toyShowIp
-  aesEnc := fun _ b => b.map (255 - ·)
-  aesDec := fun _ b => b.map (255 - ·)
-  pfxEnc := fun _ v4 b => if v4 then b.take 12 ++ (b.drop 12).map (255 - ·) else b.map (255 - ·)
-  pfxDec := fun _ v4 b => if v4 then v4Prefix ++ (b.drop 12).map (255 - ·) else b.map (255 - ·)
+  aesEnc := fun _ b => b.reverse
+  aesDec := fun _ b => b.reverse
+  pfxEnc := fun _ v4 b => if v4 then b.take 12 ++ (b.drop 12).reverse else b.reverse
+  pfxDec := fun _ v4 b => if v4 then v4Prefix ++ (b.drop 12).reverse else b.reverse
 
 /-! ## Spec predicates (evaluated by the driver on the implementation's observations, and proved of
     the model in `VrlProofs/Props/C23.lean`) -/
